@@ -35,7 +35,8 @@ META = {
         ' Round 7: cleanup_desc removes words from the end of a block only; a local name bound to a list the object keeps is not grown in place (`pulled = self.matches[0][1]; pulled += ...`).'
         ' Round 8: the colon-required fallback stages a single section (shared with C11).'
         " Round 9: segment cuts at TwpRgeFinder's matches, not at every raw pattern match; the sec_within length gate is >=."
-        ' Round 12: field-role names are judged only when they speak about the match, not about the block.'),
+        ' Round 12: field-role names are judged only when they speak about the match, not about the block.'
+        ' Also (round 12): with sec_within, left-over text below the minimum length is dropped without a flag - recorded as a known finding whose key carries the folded threshold (a larger threshold is a new violation).'),
     'families': ['TBL', 'LOCK', 'ORDER', 'PAIR', 'FORWARD', 'DEADPARAM', 'SIB-DEFAULTS'],
 }
 
@@ -59,6 +60,7 @@ def check(ctx):
     ctx.attempt(_segment_uses_the_finder)
     from .c04 import _thresholds_and_tests   # sec_within re-attaches a block of exactly the minimum length (>=, as the flagging side)
     ctx.attempt(_thresholds_and_tests)
+    ctx.attempt(_sec_within_length_gate)
     from .c11 import _copyall                 # the colon-required fallback keeps the text in ONE tract
     ctx.attempt(_copyall)
     ctx.attempt(word_tables)
@@ -379,3 +381,45 @@ def _segment_uses_the_finder(ctx):
                            f"(one that follows 'Section N of') becomes a cut point, so the segmented parse splits / shifts tracts and "
                            f"raises twprge_error / unused_desc where the unsegmented parse is clean",
                 key="SIB|PLSSChunker.segment|raw-matches", where=common.loc(fi, a))
+
+
+def _sec_within_length_gate(ctx):
+    """rebuild_sec_within re-attaches a left-over block only if it is at
+    least `min_length` characters long; shorter text ('RR', 'in') is in
+    neither the rebuilt description nor a flag.  The gate exists on the
+    unchanged tree (a recorded finding, keyed by the folded threshold the
+    callers pass); a larger threshold drops ordinary short words ('less RR',
+    'in RoW') and is a different, new key."""
+    fi = ctx.repo.func('plss_parse:rebuild_sec_within')
+    gates = [c for c in walk_local(fi.node) if isinstance(c, ast.Compare) and len(c.ops) == 1
+             and isinstance(c.left, ast.Call) and dotted(c.left.func) == 'len' and 'min_length' in norm(c.comparators[0])]
+    if not gates:
+        ctx.ok('SINK', 'rebuild_sec_within re-attaches every left-over block', 'no length gate')
+        return
+    vals = set()
+    for f2 in ctx.repo.funcs.values():
+        for c in walk_local(f2.node):
+            if isinstance(c, ast.Call) and (dotted(c.func) or '').split('.')[-1] == 'rebuild_sec_within':
+                kw = {k.arg: k.value for k in c.keywords if k.arg}
+                arg = kw.get('min_length', c.args[2] if len(c.args) > 2 else None)
+                if arg is None:
+                    d = fi.param_defaults().get('min_length') if hasattr(fi, 'param_defaults') else None
+                    v = ctx.fold.eval(d, {}, fi.module.name) if d is not None else None
+                else:
+                    v = None
+                    if isinstance(arg, ast.Attribute) and arg.attr.isupper():
+                        try:
+                            v = ctx.fold.get_attr('plss_parse', 'PLSSParser', arg.attr)
+                        except AnalysisError:
+                            v = None
+                    if v is None:
+                        v = common.fold_in_func(ctx, f2, arg)
+                vals.add(v if isinstance(v, int) else None)
+    if not vals or None in vals:
+        ctx.undecided('SINK', 'rebuild_sec_within: length gate', 'the threshold the callers pass does not fold')
+        return
+    val = max(vals)
+    ctx.violation('SINK', f"rebuild_sec_within re-attaches a left-over block only if `{norm(gates[0])}`",
+                  f"with sec_within, left-over text shorter than {val} characters is dropped from the rebuilt description without a flag "
+                  f"(the property asks for the leading and trailing text joined in order)",
+                  key=f"SINK|rebuild_sec_within|min-length|{val}", where=common.loc(fi, gates[0]))
